@@ -405,26 +405,151 @@ class M2(XArr):
         return out
 
 
+# --------------------------------------------------------------------- dtypes of coordinates
+# Coordinates are real numbers on the proof side; where the CODE converts (np.asarray / np.array with dtype=, .astype, the promotion of np.concatenate /
+# np.vstack) the conversion is the cast model of pyvc/ext_C05_frame.py (`cast_<src>_<dst>`: float -> int truncates toward zero, int -> float is exact up to
+# 2**53 (float64) / 2**24 (float32) and integer-valued, int -> int keeps values in range) - reused, not restated.  float32 <-> float64 is the identity:
+# widening is exact in IEEE arithmetic, narrowing rounds - the standing assumption `floats are reals` of this project (the float32 storage of the tree
+# is ignored in the same way).
+F64 = np.dtype("float64")
+FLOAT_WIDTH = ("dtype-cast-model(C17): float32 <-> float64 conversions of coordinates are the identity over the reals (widening is exact; narrowing rounds to 24 bits: "
+               "standing assumption `floats are reals`); every other conversion goes through cast_<src>_<dst> of pyvc/ext_C05_frame.py")
+
+
+def dt_of(x):
+    """numpy dtype of an array operand (recorded, else the default of its kind: int64 / float64 / bool)"""
+    d = getattr(x, "dtype", None)
+    if d is not None:
+        return np.dtype(d)
+    k = x.kind if isinstance(x, (NArr, SArr)) else kind_of(x)
+    if k not in ("int", "real", "bool"):
+        raise Unsupported(f"dtype of {type(x).__name__}")
+    return npmodels.dtype_of_kind(k)
+
+
+def cast_coord(eng, z, src, dst):
+    """the real-sorted term z (a value of dtype src; integer-valued when src is an integer dtype) converted to dtype dst, again as a real-sorted term"""
+    src, dst = np.dtype(src), np.dtype(dst)
+    if src == dst:
+        return z
+    if src.kind not in "iuf" or dst.kind not in "iuf":
+        raise Unsupported(f"conversion of coordinates {src} -> {dst}")
+    if src.kind == "f" and dst.kind == "f":
+        used(eng, FLOAT_WIDTH)
+        return z
+    from .ext_C05_frame import cast_fn
+
+    f = cast_fn(eng, src, dst)
+    r = f(z3.simplify(z3.ToInt(z)) if src.kind in "iu" else z)
+    return z3.ToReal(r) if dst.kind in "iu" else r
+
+
+def cast_cloud(eng, P, dst):
+    """P.astype(dst) / np.array(P, dtype=dst): a fresh cloud whose coordinates are those of P pushed through the cast model"""
+    dst = np.dtype(dst)
+    if dst.kind not in "iuf":
+        raise Unsupported(f"point cloud converted to {dst}")
+    src = P.dtype
+    cast_coord(eng, z3.RealVal(0), src, dst)  # the axioms of the cast enter the path here (not inside a lambda body)
+    out = Points([c if src == dst else npmodels.lam(lambda a, _c=c: cast_coord(eng, z3.Select(_c, a), src, dst), "real") for c in P.cols], P.n, name=P.name + "_as", dtype=dst)
+    out.frozen = False
+    out.fp = fp_of(P)
+    if src == dst and hasattr(P, "selection"):
+        out.selection = P.selection
+    return out
+
+
+def _dtype_arg(args, kwargs, pos, what):
+    dt = kwargs.get("dtype", args[pos] if len(args) > pos else None)
+    if dt is None:
+        return None
+    try:
+        return np.dtype(dt)
+    except TypeError:
+        raise Unsupported(f"{what}: dtype argument {dt!r}")
+
+
+def _pts_astype(eng, recv, args, kwargs):
+    if set(kwargs) - {"dtype", "copy"} or len(args) > 1:
+        raise Unsupported("astype options")
+    dt = _dtype_arg(args, kwargs, 0, "astype")
+    if dt is None:
+        raise ProgExc(TypeError, "astype() missing required argument 'dtype'")
+    used(eng, "P.astype(dtype): a fresh (n, 3) array, every coordinate converted (cast model)")
+    return cast_cloud(eng, recv, dt)
+
+
+def _np_array_of_cloud(copy):
+    def model(eng, args, kwargs):
+        P = args[0]
+        if not isinstance(P, Points) or set(kwargs) - {"dtype", "copy"} or len(args) > 2:
+            raise Unsupported("array conversion of the point cloud with these arguments")
+        dt = _dtype_arg(args, kwargs, 1, "np.array")
+        if not copy and (dt is None or dt == P.dtype):
+            used(eng, "np.asarray(P[, dtype]) returns P itself when it already has that dtype")
+            return P
+        used(eng, "np.array(P[, dtype]) / np.asarray(P, other dtype): a fresh (n, 3) array, every coordinate converted (cast model)")
+        return cast_cloud(eng, P, dt if dt is not None else P.dtype)
+
+    return model
+
+
+def _arith_dtype(P, other, op):
+    """result dtype of cloud (op) other (numpy promotion; python scalars are weak)"""
+    if isinstance(op, ast.Div):
+        rt = np.result_type(P.dtype, dt_of(other)) if isinstance(other, (Points, NArr, SArr)) else P.dtype
+        return rt if rt.kind == "f" else F64
+    if isinstance(other, (Points, NArr, SArr)):
+        return np.result_type(P.dtype, dt_of(other))
+    if isinstance(other, PList):
+        return np.result_type(P.dtype, F64 if any(kind_of(x) == "real" for x in (other.items or [])) else np.dtype("int64"))
+    if kind_of(other) == "real" and P.dtype.kind in "iu":
+        return F64
+    return P.dtype
+
+
+def typed_cloud(S, n, dtype, name="points"):
+    """setup helper: an input cloud of the given numpy dtype.  Typing facts of an integer dtype: every coordinate is an integer, inside the range of the
+    dtype when it is narrower than int64 (int64 = mathematical integers, the convention of this project)."""
+    dt = np.dtype(dtype)
+    if dt.kind not in "iuf" or (dt.kind == "f" and dt.itemsize < 4):
+        raise Unsupported(f"point cloud of dtype {dt}")
+    P = Points.fresh(n, name, dt)
+    if dt.kind in "iu":
+        j = z3.Int(fresh_name("tj"))
+        for c in P.cols:
+            e = z3.Select(c, j)
+            fact = z3.IsInt(e)
+            if dt != np.dtype("int64"):
+                ii = np.iinfo(dt)
+                fact = z3.And(fact, e >= int(ii.min), e <= int(ii.max))
+            S.eng.assume(z3.ForAll([j], z3.Implies(z3.And(0 <= j, j < _z(n)), fact), patterns=[e]))
+    return P
+
+
 # --------------------------------------------------------------------- point cloud
 class Points:
-    """(n, 3) array of reals with symbolic n (columns x, y, z).  An input: stores are frame violations."""
+    """(n, 3) array of reals with symbolic n (columns x, y, z).  An input: stores are frame violations.
+    `dtype`: the numpy dtype of the array.  The coordinates are real-sorted terms whatever the dtype; a cloud of an integer dtype holds integer VALUES
+    (typing fact of the cloud it was made from: `typed_cloud` for an input, the cast model for a conversion).  Only conversions look at the dtype (`cast_coord`)."""
 
-    def __init__(self, cols, n, name="points"):
+    def __init__(self, cols, n, name="points", dtype=None):
         self.cols = list(cols)
         self.n = n
         self.name = name
+        self.dtype = np.dtype(dtype) if dtype is not None else F64
         self.uid = next_uid()
         self.frozen = True
 
     @staticmethod
-    def fresh(n, name="points"):
-        return Points([z3.Const(fresh_name(f"{name}_{c}"), z3.ArraySort(I, z3.RealSort())) for c in "xyz"], n, name)
+    def fresh(n, name="points", dtype=None):
+        return Points([z3.Const(fresh_name(f"{name}_{c}"), z3.ArraySort(I, z3.RealSort())) for c in "xyz"], n, name, dtype)
 
     def nz(self):
         return _z(self.n)
 
     def __pyvc_snapshot__(self, memo):
-        c = Points(self.cols, self.n, self.name)
+        c = Points(self.cols, self.n, self.name, self.dtype)
         c.uid = self.uid
         for x in ("fp", "selection"):
             if hasattr(self, x):
@@ -436,7 +561,7 @@ class Points:
         n = native(self.nz(), "int")
         if not 0 <= n <= max_len:
             raise NotConcrete(f"cloud of {n} points")
-        return np.array([[native(z3.Select(c, z3.IntVal(i)), "real") for c in self.cols] for i in range(n)], dtype=np.float64).reshape(n, 3)
+        return np.array([[native(z3.Select(c, z3.IntVal(i)), "real") for c in self.cols] for i in range(n)], dtype=np.float64).reshape(n, 3).astype(self.dtype)
 
     def __pyvc_getattr__(self, eng, name):
         if name == "shape":
@@ -448,7 +573,9 @@ class Points:
         if name == "T":
             return PointsT(self)
         if name == "dtype":
-            return np.dtype("float64")
+            return self.dtype
+        if name == "astype":
+            return NativeMethod(_pts_astype, self, name)
         if name == "size":
             return eng.snum(z3.simplify(3 * self.nz()), "int")
         if name == "copy":
@@ -467,7 +594,7 @@ class Points:
         if isinstance(op, ast.Mult) and not isinstance(other, (Sym, bool)) and kind_of(other) in ("int", "real"):
             used(eng, "elementwise arithmetic with numpy broadcasting")
             cz = to_z3(other, "real")
-            out = Points([npmodels.lam(lambda x, _c=col: cz * z3.Select(_c, x), "real") for col in self.cols], self.n, name=self.name + "_scaled")
+            out = Points([npmodels.lam(lambda x, _c=col: cz * z3.Select(_c, x), "real") for col in self.cols], self.n, name=self.name + "_scaled", dtype=_arith_dtype(self, other, op))
             out.frozen = False
             out.fp = None
             return out
@@ -705,10 +832,12 @@ def _np_concatenate(eng, args, kwargs):
                 used(eng, "np.concatenate([[s], P]) is the fresh (n+1, 3) array with row 0 = s and row a+1 = P[a]")
                 pts = seq[1]
                 cols = []
+                # numpy promotes the operands to their common dtype (an int cloud next to a float64 soma becomes float64): cast model
+                res = np.result_type(dt_of(row), pts.dtype)
                 for c in range(3):
-                    sz, pc = to_z3(row.items[c], "real"), pts.cols[c]
-                    cols.append(npmodels.lam(lambda x, _s=sz, _p=pc: z3.If(x == 0, _s, z3.Select(_p, x - 1)), "real"))
-                out = Points(cols, z3.simplify(pts.nz() + 1), name="points1")
+                    sz, pc = _cast_item(eng, row.items[c], dt_of(row), res), pts.cols[c]
+                    cols.append(npmodels.lam(lambda x, _s=sz, _p=pc: z3.If(x == 0, _s, cast_coord(eng, z3.Select(_p, x - 1), pts.dtype, res)), "real"))
+                out = Points(cols, z3.simplify(pts.nz() + 1), name="points1", dtype=res)
                 out.frozen = False
                 return out
         return stack_rows(eng, list(seq), False, "np.concatenate")
@@ -832,8 +961,8 @@ def _row_operand(eng, other, what):
     raise Unsupported(f"{what} of the point cloud with {type(other).__name__}")
 
 
-def _derived(P, f, name, exact=False):
-    out = Points([npmodels.lam(lambda a, _c=c: f(_c, a), "real") for c in range(3)], P.n, name=name)
+def _derived(P, f, name, exact=False, dtype=None):
+    out = Points([npmodels.lam(lambda a, _c=c: f(_c, a), "real") for c in range(3)], P.n, name=name, dtype=dtype if dtype is not None else P.dtype)
     out.frozen = False
     out.fp = FP(False) if exact else None  # arithmetic on coordinates rounds; what a clause about rounding may assume is not tracked for it
     return out
@@ -857,7 +986,7 @@ def _pts_arith(eng, op, a, b):
             eng.prove(eng.site("division-by-zero"), z3.And(*[_forall_rows(me.nz(), lambda x, _c=c: g(_c, x) != 0) for c in range(3)]), "safety", "coordinate-wise division")
     mine = lambda c, x: z3.Select(me.cols[c], x)
     cx, cy = (mine, g) if left else (g, mine)
-    return _derived(me, lambda c, x: npmodels._z3op(op, cx(c, x), cy(c, x)), "expr")
+    return _derived(me, lambda c, x: npmodels._z3op(op, cx(c, x), cy(c, x)), "expr", dtype=_arith_dtype(me, other, op))
 
 
 def _pts_compare(eng, op, a, b):
@@ -983,7 +1112,7 @@ def select_rows(eng, P, holds, name="selected"):
         got = eng.ghost[key] = (N, K, R)
         eng.ghost.setdefault("filters", []).append(dict(N=N, K=K, R=R, n=nz, cond=holds, out=None))
     N, K, R = got
-    out = Points([npmodels.lam(lambda x, _c=c: z3.Select(_c, K(x)), "real") for c in P.cols], N, name=name)
+    out = Points([npmodels.lam(lambda x, _c=c: z3.Select(_c, K(x)), "real") for c in P.cols], N, name=name, dtype=P.dtype)
     out.frozen = False
     out.fp = fp_of(P)
     out.selection = dict(src=P, N=N, K=K, R=R, holds=holds)
@@ -1001,7 +1130,7 @@ def _gather_rows(eng, P, idx):
     if not eng.spec_mode:
         eng.prove(eng.site("gather-in-bounds"), z3.ForAll([j], z3.Implies(z3.And(j >= 0, j < idx.nz()), z3.And(sel1(arr, j) >= -n, sel1(arr, j) < n))), "safety", "row index array")
     pos = lambda x: z3.If(sel1(arr, x) < 0, sel1(arr, x) + n, sel1(arr, x))
-    out = Points([npmodels.lam(lambda x, _c=c: z3.Select(_c, pos(x)), "real") for c in P.cols], idx.n, name="gathered")
+    out = Points([npmodels.lam(lambda x, _c=c: z3.Select(_c, pos(x)), "real") for c in P.cols], idx.n, name="gathered", dtype=P.dtype)
     out.frozen = False
     out.fp = fp_of(P)
     return out
@@ -1022,7 +1151,7 @@ def _slice_rows(eng, P, sl):
 
     lo, hi = z3.simplify(clamp(sl.start, z3.IntVal(0))), z3.simplify(clamp(sl.stop, n))
     ln = z3.simplify(z3.If(hi >= lo, hi - lo, z3.IntVal(0)))
-    out = Points([npmodels.lam(lambda x, _c=c: z3.Select(_c, x + lo), "real") for c in P.cols], ln, name=P.name + "_rows")
+    out = Points([npmodels.lam(lambda x, _c=c: z3.Select(_c, x + lo), "real") for c in P.cols], ln, name=P.name + "_rows", dtype=P.dtype)
     out.frozen = P.frozen  # a view: a store reaches the operand
     out.fp = fp_of(P)
     return out
@@ -1075,7 +1204,7 @@ def _np_delete(eng, args, kwargs):
         if (isinstance(obj, int) and not isinstance(obj, bool)) or (isinstance(obj, Sym) and obj.kind == "int"):
             iz = models.norm_index(eng, obj, P.n, "np.delete row")
             used(eng, "np.delete(P, i, axis=0) on an (n, 3) cloud: the fresh cloud of the n - 1 other rows, in their order")
-            out = Points([npmodels.lam(lambda x, _c=c: z3.Select(_c, z3.If(x < iz, x, x + 1)), "real") for c in P.cols], z3.simplify(P.nz() - 1), name="remaining")
+            out = Points([npmodels.lam(lambda x, _c=c: z3.Select(_c, z3.If(x < iz, x, x + 1)), "real") for c in P.cols], z3.simplify(P.nz() - 1), name="remaining", dtype=P.dtype)
             out.frozen = False
             out.fp = fp_of(P)
             return out
@@ -1111,7 +1240,7 @@ def _np_unique(eng, args, kwargs):
         tag = fresh_name("uniq")
         N, K, R = z3.Int(tag + "_N"), z3.Function(tag + "_K", I, I), z3.Function(tag + "_R", I, I)
         m, m2, i, i2 = z3.Int(tag + "_m"), z3.Int(tag + "_m2"), z3.Int(tag + "_i"), z3.Int(tag + "_i2")
-        out = Points([npmodels.lam(lambda x, _c=c: z3.Select(_c, K(x)), "real") for c in P.cols], N, name="unique")
+        out = Points([npmodels.lam(lambda x, _c=c: z3.Select(_c, K(x)), "real") for c in P.cols], N, name="unique", dtype=P.dtype)
         out.frozen = False
         out.fp = fp_of(P)
         rng_m = lambda t: z3.And(t >= 0, t < N)
@@ -1132,22 +1261,27 @@ def _row_parts(eng, seq, promote_1d):
     parts = []
     for x in seq:
         if isinstance(x, Points):
-            parts.append((x.nz(), (lambda c, a, _p=x: z3.Select(_p.cols[c], a)), fp_of(x)))
+            parts.append((x.nz(), (lambda c, a, _p=x: z3.Select(_p.cols[c], a)), fp_of(x), x.dtype))
             continue
         if isinstance(x, PList) and x.items is not None:
             its = x.items
             if its and all(isinstance(r, NArr) and r.shape == (3,) for r in its):
                 rows = [[to_z3(v, "real") for v in r.items] for r in its]
+                dt = np.result_type(*[dt_of(r) for r in its])
             elif its and all(isinstance(r, PList) and r.items is not None and len(r.items) == 3 for r in its):
                 rows = [[to_z3(v, "real") for v in r.items] for r in its]
+                dt = _scalars_dtype([v for r in its for v in r.items])
             elif promote_1d and len(its) == 3 and all(kind_of(v) in ("real", "int") for v in its):
                 rows = [[to_z3(v, "real") for v in its]]
+                dt = _scalars_dtype(its)
             else:
                 raise Unsupported("row-wise concatenation: a list operand that is not a list of (3,) rows")
         elif isinstance(x, NArr) and x.kind in ("real", "int") and len(x.shape) == 2 and x.shape[1] == 3:
             rows = [[to_z3(v, "real") for v in x.items[3 * r:3 * r + 3]] for r in range(x.shape[0])]
+            dt = dt_of(x)
         elif isinstance(x, NArr) and x.kind in ("real", "int") and x.shape == (3,) and promote_1d:
             rows = [[to_z3(v, "real") for v in x.items]]
+            dt = dt_of(x)
         else:
             raise Unsupported(f"row-wise concatenation of the point cloud with {type(x).__name__}" + (f" of shape {x.shape}" if isinstance(x, NArr) else ""))
 
@@ -1157,27 +1291,45 @@ def _row_parts(eng, seq, promote_1d):
                 t = z3.If(a == r, _rows[r][c], t)
             return t
 
-        parts.append((z3.IntVal(len(rows)), get, FP(False)))
+        parts.append((z3.IntVal(len(rows)), get, FP(False), dt))
     return parts
+
+
+def _scalars_dtype(vs):
+    """dtype of the array numpy makes of a (nested) list of python numbers: float64 when one of them is a float, else int64"""
+    return F64 if any(kind_of(v) == "real" for v in vs) else np.dtype("int64")
+
+
+def _cast_item(eng, v, src, dst):
+    """a scalar operand (python number, Sym) of dtype src as a real-sorted term of dtype dst; a concrete integer of magnitude <= 2**53 is its own float64"""
+    z = to_z3(v, "real")
+    src, dst = np.dtype(src), np.dtype(dst)
+    if src.kind in "iu" and dst == F64 and not isinstance(v, Sym) and abs(int(v)) <= 2 ** 53:
+        return z
+    return cast_coord(eng, z, src, dst)
 
 
 def stack_rows(eng, seq, promote_1d, what):
     parts = _row_parts(eng, seq, promote_1d)
     used(eng, f"{what} of (k, 3) arrays / lists of (3,) rows and (n, 3) clouds along axis 0: the fresh array holding the rows of the operands one after the other")
     total, offs = z3.IntVal(0), []
-    for n, _, _ in parts:
+    for n, _, _, _ in parts:
         offs.append(total)
         total = z3.simplify(total + n)
+    # numpy promotes all operands to their common dtype (an int cloud stacked on a float64 soma becomes float64, a float soma cast to an int
+    # dtype BEFORE the stacking stays truncated): every operand goes through the cast model on its way into the result
+    res = np.result_type(*[d for _, _, _, d in parts])
+    parts = [(n, (lambda c, a, _g=get, _d=d: cast_coord(eng, _g(c, a), _d, res)), f, d) for n, get, f, d in parts]
 
     def cell(c, a):
         t = parts[-1][1](c, a - offs[-1])
-        for (n, get, _), off in reversed(list(zip(parts[:-1], offs[:-1]))):
+        for (n, get, _, _), off in reversed(list(zip(parts[:-1], offs[:-1]))):
             t = z3.If(a < z3.simplify(off + n), get(c, a - off), t)
         return t
 
-    out = Points([npmodels.lam(lambda a, _c=c: cell(_c, a), "real") for c in range(3)], total, name="points1")
+    out = Points([npmodels.lam(lambda a, _c=c: cell(_c, a), "real") for c in range(3)], total, name="points1", dtype=res)
     out.frozen = False
-    out.fp = FP(False) if all(f is not None and not f.inexact for _, _, f in parts) else None
+    out.fp = FP(False) if all(f is not None and not f.inexact for _, _, f, _ in parts) else None
     return out
 
 
@@ -1199,7 +1351,7 @@ def _np_vstack(eng, args, kwargs):
 
 
 def _np_copy_like(eng, recv, args, kwargs):
-    out = Points(recv.cols, recv.n, name=recv.name + "_cp")
+    out = Points(recv.cols, recv.n, name=recv.name + "_cp", dtype=recv.dtype)
     out.frozen = False
     out.fp = fp_of(recv)
     return out
@@ -1539,11 +1691,12 @@ def install():
     # functions that other properties model as well (process-wide table): ours serve only calls with a point cloud among the operands,
     # every other call goes to the model that was registered before (or to the stock one)
     cloud = lambda args, kwargs: any(isinstance(x, (Points, Bool3)) for x in args[:2])
+    cloud1 = lambda args, kwargs: bool(args) and isinstance(args[0], Points)
     stacked = lambda args, kwargs: bool(args) and _seq_items(args[0]) is not None and any(isinstance(x, Points) for x in _seq_items(args[0]))
     mask1 = lambda args, kwargs: len(args) == 1 and isinstance(args[0], SArr) and args[0].kind == "bool" and not isinstance(args[0], (M2, ColVec, Bool3))
     for fn, applies, mine in ((np.isclose, cloud, _np_isclose), (np.allclose, cloud, _np_allclose), (np.all, cloud, _np_all_any("all")), (np.any, cloud, _np_all_any("any")),
                               (np.abs, cloud, _np_abs), (np.absolute, cloud, _np_abs), (np.delete, cloud, _np_delete), (np.unique, cloud, _np_unique),
-                              (np.vstack, stacked, _np_vstack), (np.flatnonzero, mask1, _np_flatnonzero), (len, cloud, _b_len)):
+                              (np.vstack, stacked, _np_vstack), (np.array, cloud1, _np_array_of_cloud(True)), (np.asarray, cloud1, _np_array_of_cloud(False)), (np.flatnonzero, mask1, _np_flatnonzero), (len, cloud, _b_len)):
         _guard(fn, applies, mine)
     # binary operators on the extension arrays: the engine sends every SArr operand to models.array_binop; values that
     # carry a __pyvc_binop__ method are served by it, everything else goes to the stock implementation unchanged
